@@ -56,7 +56,7 @@ theorem KAt.of_label {ks : List Code} {i : Nat} {l : String} {items : List Code}
 
 section Call3
 
-variable {mc : MonCfg} {α : Word → Word} {p : RV.Program} {ks : List Code} (L : Loaded p ks)
+variable {mc : MonCfg} {cw : Nat → Word} {τ : Nat → Nat → Word} {p : RV.Program} {ks : List Code} (L : Loaded p ks)
   (hndL : (labs ks).Nodup) (hheap : mc.heap = false)
 
 include L hndL hheap in
@@ -65,13 +65,13 @@ theorem call_x3 {P : Abs.Program} {hooks : Bool} {prog : AxCut.Prog} {Γ : Ctx} 
     {args : Ctx} {cfg : Config} {d : Def}
     (R : RelX P hooks prog ⟨Γ, ρ, .call l args⟩ cfg) (D : DefsAt P hooks prog) (DX : KDefsAt ks hooks prog)
     (hd : Pos.findDef prog.defs l = some d) (hchi : Pos.chiTys Γ = Pos.chiTys d.ctx)
-    {hs : HState} {ι : Nat → Nat} {st : State} (X : X3 mc α Γ cfg hs ι st)
+    {hs : HState} {ι : Nat → Nat} {st : State} (X : X3 mc cw τ Γ cfg hs ι st)
     {kx kx' : Nat} {items : List Code}
     (hrunX : (codeStatementR rvBackend hooks natRen prog.types (.call l args) Γ).run kx = .ok (items, kx'))
     (hatX : KAt ks st.pc items) :
     ∃ cfg' st', stepsTo P 1 cfg cfg' ∧ Reach p mc st st' ∧
-      cfg'.out = cfg.out ∧ cfg'.next = cfg.next ∧
-      RelX P hooks prog ⟨d.ctx, ρ, d.body⟩ cfg' ∧ X3 mc α d.ctx cfg' hs ι st' ∧
+      cfg'.out = cfg.out ∧ cfg'.next = cfg.next ∧ FrameFacts cfg cfg' Γ.length ∧
+      RelX P hooks prog ⟨d.ctx, ρ, d.body⟩ cfg' ∧ X3 mc cw τ d.ctx cfg' hs ι st' ∧
       ∃ k1 k1' items', (codeStatementR rvBackend hooks natRen prog.types d.body d.ctx).run k1 = .ok (items', k1') ∧
         KAt ks st'.pc items' := by
   obtain ⟨cfg', hst, hout, hnext, R'⟩ := sim2_call R D hd hchi
@@ -95,7 +95,7 @@ theorem call_x3 {P : Abs.Program} {hooks : Bool} {prog : AxCut.Prog} {Γ : Ctx} 
   have hc0c : ∀ y ∈ c0, ∃ m', y = Code.COMMENT m' := by rw [← hc0]; exact hook_comments hooks Γ _
   replace hatX : KAt ks st.pc (c0 ++ [Code.JAL ZERO (l.print ++ "_")]) := hatX
   obtain ⟨pc0, k0, hr0, hat0⟩ := pass_comments L hndL hheap hatX hc0c
-  have X0 : X3 mc α Γ cfg hs ι (setPS st pc0 k0) := X3R.setPS X _ _
+  have X0 : X3 mc cw τ Γ cfg hs ι (setPS st pc0 k0) := X3R.setPS X _ _
   have hr1 := step_label L (cfg := mc) (s := setPS st pc0 k0) (s1 := setPS st pc0 k0) (l := l.print ++ "_")
     (i := i) hat0 rfl (fun a => exec_JAL_zero mc _ a _ _) (by rw [← hname]; exact hidx)
   -- the label of the definition
@@ -103,13 +103,14 @@ theorem call_x3 {P : Abs.Program} {hooks : Bool} {prog : AxCut.Prog} {Γ : Ctx} 
     have := congrArg (List.map Prod.fst) hchi
     simp only [Pos.chiTys, List.map_map] at this
     exact this
-  have X1 : X3 mc α d.ctx cfg' hs ι (setPS (setPS st pc0 k0) i ((setPS st pc0 k0).steps + 1)) :=
+  have X1 : X3 mc cw τ d.ctx cfg' hs ι (setPS (setPS st pc0 k0) i ((setPS st pc0 k0).steps + 1)) :=
     X3R.setPS ((X0.jump J).ctxCongr hkeys) _ _
   have hati : KAt ks (setPS (setPS st pc0 k0) i ((setPS st pc0 k0).steps + 1)).pc
       (Code.LAB (d.name.print ++ "_") :: ditems) := KAt.of_label hlab hdat
   generalize setPS (setPS st pc0 k0) i ((setPS st pc0 k0).steps + 1) = s1 at hr1 X1 hati
   obtain ⟨hr2, hat2⟩ := pass_label L (cfg := mc) hati (defLabel_ne_cleanup _)
-  exact ⟨cfg', _, hst, hr0.trans (hr1.trans hr2), hout, hnext, R', X3R.setPS X1 _ _, _, _, ditems, hdrun, hat2⟩
+  exact ⟨cfg', _, hst, hr0.trans (hr1.trans hr2), hout, hnext,
+    J.frame (by have := X.cap; unfold Mock.T_TEMP; omega), R', X3R.setPS X1 _ _, _, _, ditems, hdrun, hat2⟩
 
 include L hndL hheap in
 /-- THREE-WAY SIMULATION OF `exit`: the result goes to `X10`, the jump goes to `cleanup`, where the run ends
@@ -117,7 +118,7 @@ with the result -/
 theorem exit_x3 {P : Abs.Program} {hooks : Bool} {prog : AxCut.Prog} {Γ : Ctx} {ρ : List Value} {a : Ident}
     {cfg : Config} {v : Word}
     (R : RelX P hooks prog ⟨Γ, ρ, .exit a⟩ cfg) (ha : readInt Γ ρ a = .ok v)
-    {hs : HState} {ι : Nat → Nat} {st : State} (X : X3 mc α Γ cfg hs ι st)
+    {hs : HState} {ι : Nat → Nat} {st : State} (X : X3 mc cw τ Γ cfg hs ι st)
     {kx kx' : Nat} {items : List Code}
     (hrunX : (codeStatementR rvBackend hooks natRen prog.types (.exit a) Γ).run kx = .ok (items, kx'))
     (hatX : KAt ks st.pc items) {ic : Nat} (hclean : labIdx ks "cleanup" = some ic) :
@@ -138,7 +139,7 @@ theorem exit_x3 {P : Abs.Program} {hooks : Bool} {prog : AxCut.Prog} {Γ : Ctx} 
     rw [← this]
     simpa [List.append_assoc] using hatX
   obtain ⟨pc0, k0, hr0, hat0⟩ := pass_comments L hndL hheap hatX hc0c
-  have X0 : X3 mc α Γ cfg hs ι (setPS st pc0 k0) := X3R.setPS X _ _
+  have X0 : X3 mc cw τ Γ cfg hs ι (setPS st pc0 k0) := X3R.setPS X _ _
   have hw := X0.words i hl v hg
   rw [hchi] at hw
   obtain ⟨hr1, hat1⟩ := step_fall L (cfg := mc) (s := setPS st pc0 k0)
